@@ -20,17 +20,16 @@ RealCRCOK(f) == SubSeq(f, Len(f) - 2, Len(f)) = CrcBytes(CRC24Q(SubSeq(f, 1, Len
 R == INSTANCE FramerCore WITH SOFc <- SOF, LeaderLen <- 3, ProbeLen <- 5,
         LeaderOK <- RealLeaderOK, FrameLen <- RealFrameLen, CRCOK <- RealCRCOK, TypeOf <- Type12
 Messages(in) ==
-  FoldLeft(LAMBDA a, k : IF a[1].done THEN a ELSE R!StepOn(a[1], a[2]),
-           << R!St0, in >>, [k \in 1..(2 * Len(in) + 6) |-> k])[1].out
+  FoldLeft(LAMBDA a, k : IF a[1].done THEN a ELSE R!StepIdx(a[1], in, a[2]),
+           << R!St0, 0 >>, [k \in 1..(2 * Len(in) + 6) |-> k])[1].out
 
 VARIABLES l, bad
 
 Ok(e) ==
-    LET kinds == [i \in 1..Len(e.script) |-> e.script[i].k]
-        stop == FR!StopP(kinds, e.tz)
-        upto == IF stop - 1 <= Len(kinds) THEN stop - 1 ELSE Len(kinds)
-        data == [i \in 1..Len(SelectSeq(SubSeq(e.script, 1, upto), LAMBDA x : x.k = "D")) |->
-                    SelectSeq(SubSeq(e.script, 1, upto), LAMBDA x : x.k = "D")[i].b]
+  \E kinds \in {FoldLeft(LAMBDA acc, x : Append(acc, x.k), <<>>, e.script)} :
+  \E stop \in {FR!StopP(kinds, e.tz)} :
+    LET upto == IF stop - 1 <= Len(kinds) THEN stop - 1 ELSE Len(kinds)
+        data == FoldLeft(LAMBDA acc, x : IF x.k = "D" THEN Append(acc, x.b) ELSE acc, <<>>, SubSeq(e.script, 1, upto))
     IN \/ e.stalled                                    \* the environment stalled: the run proves nothing
        \/ /\ e.returned /\ e.closed
           /\ e.ret = FR!RetKindP(kinds, e.tz)
